@@ -181,6 +181,17 @@ def edges_namespace(out, tier):
         # heavy also on the step before the last, so that C10 can compare bytes
         if len(ops) >= 2:
             ops[-2]["heavy"] = True
+        # the last call once more, and the same call on a sibling name below the same parent spelling: whatever the
+        # first call was - refused or not - it must not have left anything behind (a cache, a half-made entry) that
+        # changes what the next call with the same arguments, or the same parent, answers
+        last = ops[-1]
+        if "p" in last and "runs" not in last:
+            again = dict(last, heavy=False)
+            ops.append(again)
+            toks = list(last["p"]["t"])
+            if toks and toks[-1] not in (".", ".."):
+                sib = dict(last, heavy=True, p=dict(last["p"], t=toks[:-1] + ["a" if toks[-1] != "a" else "bar"]))
+                ops.append(sib)
         ops += gens.query_battery(d, ["foo", "FOO", "bar", "a"], parents=((), ("foo",)))
         hists.append({"id": f"edge{i}", "ver": 3 if i % 2 == 0 else 4, "heavy": "marked", "ops": ops})
     return hists
@@ -463,6 +474,72 @@ def check_c03(tier, seed):
                   FILE_ASSUME, {"fidelity": fid.summary("C03")})
 
 
+def c10_counterfactual(out, tier):
+    """C10, second half, by its own definition: 'every subsequently observable result the same AS IF THE CALL HAD NOT BEEN MADE'.
+    Every MC_Tree edge whose last call L the library refuses is run twice: H + [L, L, S] and H + [S], S being the same method on a
+    sibling name below the same parent spelling (and, for the first run, L itself a second time).  What S answers must not depend
+    on whether the refused L was made before it: a difference is reported whatever the abstract model thinks of either answer
+    (a cache filled by the refused call, a half-made entry, a cursor that moved)."""
+    names = ["foo", "FOO", "bar", "a", "bad_colon"]
+    edges, gen, distinct = gens.tlc_edges("MC_Tree", gens.mc_tree_cfg(names, 3 if tier == "quick" else 4, True),
+                                          {"DICT": os.path.join(core.DICTDIR, "A.tlc.json")}, f"mct_cf_{out.prop}")
+    hists, pairs = [], []
+    for i, e in enumerate(edges):
+        ops = gens.concretize(e)
+        last = ops[-1]
+        if "p" not in last or "runs" in last or last["op"] in ("write", "set_len"):
+            continue
+        toks = list(last["p"]["t"])
+        if not toks or toks[-1] in (".", ".."):
+            continue
+        for o in ops:
+            o["heavy"] = False
+        for sname in ("a", "bar", "FOO"):
+            if sname == toks[-1]:
+                continue
+            S = dict(last, p=dict(last["p"], t=toks[:-1] + [sname]))
+            ver = 3 if i % 2 == 0 else 4
+            a = {"id": f"cfA{i}_{sname}", "ver": ver, "heavy": "none", "ops": [dict(o) for o in ops] + [dict(last), dict(S)]}
+            b = {"id": f"cfB{i}_{sname}", "ver": ver, "heavy": "none", "ops": [dict(o) for o in ops[:-1]] + [dict(S)]}
+            pairs.append((len(hists), len(hists) + 1, len(ops) - 1))
+            hists += [a, b]
+            break
+    got = {}
+
+    def grab(res):
+        for si, sp, tp, gidx in res["jobs"]:
+            try:
+                for ln in open(tp):
+                    ev = json.loads(ln)
+                    if ev.get("ev") == "op" and 0 <= ev.get("hi", -1) < len(gidx):
+                        got.setdefault(gidx[ev["hi"]], {})[ev["oi"]] = ev.get("res")
+            except OSError:
+                pass
+    run_batch(out, "counterfactual", "A", hists, on_result=grab)
+    nref = 0
+    for ia, ib, li in pairs:
+        ra, rb = got.get(ia, {}), got.get(ib, {})
+        L1, L2, SA, SB = ra.get(li), ra.get(li + 1), ra.get(li + 2), rb.get(li)
+        if not (L1 and SA and SB) or L1.get("k") != "err" or L1.get("e") not in ("NotFound", "AlreadyExists", "InvalidInput"):
+            continue
+        nref += 1
+        strip = lambda r: {k: v for k, v in (r or {}).items() if k != "msg"}
+        why = None
+        if strip(SA) != strip(SB):
+            why = f"after the refused call a later call answers {strip(SA)} instead of {strip(SB)}"
+        elif L2 and strip(L2) != strip(L1):
+            why = f"the refused call answers {strip(L2)} when made again (first: {strip(L1)})"
+        if why:
+            what = f"C10.as-if-not-made at op {li} of history {hists[ia]['id']} [counterfactual]: {why}"
+            payload = {"property": out.prop, "batch": "counterfactual", "dict": "A", "spec": "Trace_File", "driver": "drive", "extra_specs": [],
+                       "bundle": None, "failed": [{"tag": "C10", "rule": "as-if-not-made", "op_index": li, "detail": why}], "history": hists[ia],
+                       "history_without_the_refused_call": hists[ib], "event": None}
+            path = core.write_replay(out.prop, f"counterfactual_{ia}", payload) if len(out.violations) < 60 else out.violations[-1][1]
+            out.violations.append((what, path))
+    out.parts.append({"counterfactual": "pairs of runs with / without a refused call, the later call's answers compared", "pairs": len(pairs),
+                      "pairs_whose_call_was_refused": nref})
+
+
 def check_c10(tier, seed):
     out = Outcome("C10", tier, seed)
     # design level: the API layer's checks all precede its effects, also in the loops of create_storage_all / remove_storage_all
@@ -472,6 +549,7 @@ def check_c10(tier, seed):
     for dn, hs in random_batches(seed + 3, tier, 60, 500, 40, dicts=("A", "E")).items():
         run_batch(out, f"random{dn}", dn, hs, extra_specs=("Trace_Phys",) if dn == "A" else (), keep=fid.lines)
     out.c10_fid = fid
+    c10_counterfactual(out, tier)
     # refused seeks on a handle holding unflushed data: bytes and position must not change
     from . import hgens
     rng = random.Random(seed + 33)
